@@ -47,7 +47,7 @@ package directive
 //@   ensures second(result) == nil
 //@   ensures imp(only == filterRuleForUs(opt), first(result) == Option.Clean(opt, profile))
 //@   ensures imp(only != filterRuleForUs(opt) && Option.IsInline(opt), first(result) == ext("strings.ReplaceAll", profile, opt.Raw, ""))
-//@   ensures imp(only != filterRuleForUs(opt) && !Option.IsInline(opt), first(result) == ext("(*regexp.Regexp).ReplaceAllString", ext("regexp.MustCompile", concat(concat("(?s)", opt.Raw), "\\n.*?\\n\\n")), profile, ""))
+//@   ensures imp(only != filterRuleForUs(opt) && !Option.IsInline(opt), first(result) == ext("(*regexp.Regexp).ReplaceAllString", ext("regexp.MustCompile", concat(concat("(?sm)^", ext("regexp.QuoteMeta", opt.Raw)), "\\n.*?\\n\\n")), profile, ""))
 
 //@ func (FilterOnly).Apply
 //@   opt prop=C03
